@@ -843,7 +843,7 @@ class C17World(Suite):
             "ConjunctiveGraph.default_context / Dataset.parse, all NamespaceManager operations through any of "
             "several managers over one Memory store")
     quick_n = 50
-    thorough_n = 3000
+    thorough_n = 2000
 
     STOCK = {"none": "[]", "core": "stock_core", "rdflib": "stock_rdflib"}
     # object kinds: shared with the root's manager: graph get_context fresh; own manager: dc (stock rdflib),
